@@ -272,21 +272,21 @@ Definition allowed_diffs : list diff := Eval vm_compute in [
     (("OBSERVABLE: Stats().TopQueued[i] has OldestQueuedReceivedAt / EarliestQueuedNextRun / OldestQueuedAge / "
            ++ "ReadyLag filled by SQLite and memory and left zero by Postgres"));
   mkDiff "attempt-null-encoding-1" ["RecordAttempt"]
-    (words ("#if go{attempt.StatusCode > 0} #assign go{statusCode = attempt.StatusCode} #end #if go{attempt.Error != "
+    (words ("#if go{attempt.StatusCode != 0} #assign go{statusCode = attempt.StatusCode} #end #if go{attempt.Error != "
            ++ """""} #assign go{errVal = attempt.Error} #end #if go{attempt.DeadReason != """"} #assign go{deadReason = "
            ++ "attempt.DeadReason} #end"))
     (words "")
-    Divergent
+    Structural
     ("see attempt-null-encoding-2");
   mkDiff "attempt-null-encoding-2" ["RecordAttempt"]
     (words "@{statusCode} , @{errVal} , @{string(attempt.Outcome)} , @{deadReason} , @{attempt.CreatedAt} ) #endstmt")
     (words ("@{nullInt(attempt.StatusCode)} , @{nullIfEmpty(attempt.Error)} , @{string(attempt.Outcome)} , "
-           ++ "@{nullIfEmpty(attempt.DeadReason)} , @{attempt.CreatedAt} ) #endstmt #if go{err != nil} "
-           ++ "#do:mapQueueInsertError #end"))
-    Divergent
-    (("OBSERVABLE (corner cases): a negative status code is stored by Postgres (nullInt tests == 0) and dropped "
-           ++ "by SQLite (tests > 0); a duplicate attempt id gives ErrEnvelopeExists from Postgres and the raw "
-           ++ "constraint error from SQLite"));
+           ++ "@{nullIfEmpty(attempt.DeadReason)} , @{attempt.CreatedAt} ) #endstmt"))
+    Structural
+    (("a zero status code / empty error / empty dead reason become NULL: SQLite by local variables left nil, Postgres "
+           ++ "by nullInt (== 0) and nullIfEmpty; a duplicate attempt id is mapped to ErrEnvelopeExists by both "
+           ++ "(fixes 3c4902c, 42c7a85; before them SQLite dropped negative status codes and returned the raw "
+           ++ "constraint error)"));
   mkDiff "attempts-where-clause" ["ListAttempts"]
     (words ("WHERE 1 = 1 #opt go{req.Route != """"} AND route = @{req.Route} #endopt #opt go{req.Target != """"} AND "
            ++ "target = @{req.Target} #endopt #opt go{req.EventID != """"} AND event_id = @{req.EventID} #endopt #opt "
